@@ -5,8 +5,14 @@
    (bitemp read  <N|T:asof> I:<what>) reply: bi_read(store, asof, what) as a series
    (bitemp read  T:<asof> I:<what> S:<spelling>)  the same read; the implementation side hands the time over in
                                       another spelling (str, int, date, ...), the model reads as of the time itself
-   (bitemp spec  <N|T:asof>)          reply: the fold of the publication log (`specRead`) - what the
+   (bitemp spec  <N|T:asof>)          reply: the fold of the publication log (`specReadR` of all published rows) - what the
                                       property says an as-of read must return
+   (bitemp mergeshift T:<now> <ts>)   store := bi_merge(store, Bi(ts, 'shift')), the wall-clock `now` handed over
+   (bitemp mergebump I:<days> T:<now> <ts>)  store := bi_merge(store, Bi(ts, days)) (a bump of whole days, capped at `now`)
+   (bitemp reads <N|T:asof> S:<last|first>)  bi_read(store, asof, what='last' | 'first')
+   (bitemp fmerge T:<stamp> (L (T T:<date> (L <cell>*))*))   frame store := bi_merge(frame store, Bi(frame, stamp)); reply: rows
+   (bitemp fread <N|T:asof> I:<what>)        bi_read(frame store, asof, what) as rows (date, cells)
+   (bitemp freads <N|T:asof> S:<last|first> I:<width>)  bi_read(frame store, asof, 'last' | 'first')
 -/
 import PygModel.Bitemp
 
@@ -15,7 +21,9 @@ open Pyg Pyg.Bitemp
 
 structure State where
   store : Option Store := Option.none
-  log : List Version := []
+  /-- every published row, in merge order -/
+  rows : Store := []
+  fstore : Option StoreF := Option.none
 
 abbrev St := State
 def init : St := {}
@@ -41,13 +49,36 @@ def intOf : Sexp → Option Int
       | _ => Option.none
   | _ => Option.none
 
+def selOf : Sexp → Option Sel
+  | .atom s => match Cell.parse s with
+      | some (.str "last") => some .last
+      | some (.str "first") => some .first
+      | _ => Option.none
+  | _ => Option.none
+
+def cellOf : Val → Option (Option Int)
+  | .cell (.int x) => some (some x)
+  | .cell .nan => some Option.none
+  | _ => Option.none
+
+def tsfOf : Val → Option TSF
+  | .list xs => xs.mapM fun x => match x with
+      | .tuple [.cell (.dt t), .list cs] => (cs.mapM cellOf).map fun cs => (t, cs)
+      | _ => Option.none
+  | _ => Option.none
+
+def rowsFVal (rows : StoreF) : Val :=
+  .list (rows.map fun r => .tuple [.cell (.dt r.date), .cell (.dt r.stamp), .list (r.vals.map valCell)])
+
+def tsfVal (ts : TSF) : Val := .list (ts.map fun p => .tuple [.cell (.dt p.1), .list (p.2.map valCell)])
+
 def handle (s : St) (op : String) (args : List Sexp) : Option (St × String) := do
   match op, args with
   | "merge", [stamp, ts] =>
       let stamp ← (← asofOf stamp)
       let ts ← TS.ofVal (← Val.ofSexp ts)
       match biMergeE s.store (Bi ts stamp) with
-      | .ok st => pure ({ store := some st, log := s.log ++ [⟨stamp, ts⟩] }, "ok " ++ (rowsVal st).render)
+      | .ok st => pure ({ s with store := some st, rows := s.rows ++ Bi ts stamp }, "ok " ++ (rowsVal st).render)
       | .error e => pure (s, "err " ++ e.render)
   | "mergelist", [vs] =>
       let vs ← match ← Val.ofSexp vs with
@@ -56,7 +87,7 @@ def handle (s : St) (op : String) (args : List Sexp) : Option (St × String) := 
             | _ => Option.none
         | _ => Option.none
       match biMergeLE s.store (vs.map fun v => Bi v.ts v.stamp) with
-      | .ok st => pure ({ store := st, log := s.log ++ vs },
+      | .ok st => pure ({ s with store := st, rows := s.rows ++ logRows vs },
           match st with | some st => "ok " ++ (rowsVal st).render | Option.none => "ok N")
       | .error e => pure (s, "err " ++ e.render)
   | "read", [asof, what] =>
@@ -75,7 +106,47 @@ def handle (s : St) (op : String) (args : List Sexp) : Option (St × String) := 
       let asof ← asofOf asof
       match s.store with
       | Option.none => pure (s, "ok N")
-      | some _ => pure (s, "ok " ++ (TS.toVal (specRead s.log asof)).render)
+      | some _ => pure (s, "ok " ++ (TS.toVal (specReadR s.rows asof)).render)
+  | "mergeshift", [now, ts] =>
+      let now ← (← asofOf now)
+      let ts ← TS.ofVal (← Val.ofSexp ts)
+      if ts.isEmpty then Option.none else      -- kept out: the real code creates a row
+      match biMergeE s.store (BiShift ts now) with
+      | .ok st => pure ({ s with store := some st, rows := s.rows ++ BiShift ts now }, "ok " ++ (rowsVal st).render)
+      | .error e => pure (s, "err " ++ e.render)
+  | "mergebump", [days, now, ts] =>
+      let days ← intOf days
+      let now ← (← asofOf now)
+      let ts ← TS.ofVal (← Val.ofSexp ts)
+      let f := BiBump ts (days * 86400000000) now
+      match biMergeE s.store f with
+      | .ok st => pure ({ s with store := some st, rows := s.rows ++ f }, "ok " ++ (rowsVal st).render)
+      | .error e => pure (s, "err " ++ e.render)
+  | "reads", [asof, sel] =>
+      let asof ← asofOf asof
+      let sel ← selOf sel
+      match s.store with
+      | Option.none => pure (s, "ok N")
+      | some st => pure (s, "ok " ++ (TS.toVal (biReadS st asof sel)).render)
+  | "fmerge", [stamp, rows] =>
+      let stamp ← (← asofOf stamp)
+      let ts ← tsfOf (← Val.ofSexp rows)
+      match biMergeFE s.fstore (BiF ts stamp) with
+      | .ok st => pure ({ s with fstore := some st }, "ok " ++ (rowsFVal st).render)
+      | .error e => pure (s, "err " ++ e.render)
+  | "fread", [asof, what] =>
+      let asof ← asofOf asof
+      let what ← intOf what
+      match s.fstore with
+      | Option.none => pure (s, "ok N")
+      | some st => pure (s, "ok " ++ (tsfVal (biReadF st asof what)).render)
+  | "freads", [asof, sel, width] =>
+      let asof ← asofOf asof
+      let sel ← selOf sel
+      let width ← intOf width
+      match s.fstore with
+      | Option.none => pure (s, "ok N")
+      | some st => pure (s, "ok " ++ (tsfVal (biReadFS width.toNat st asof sel)).render)
   | _, _ => Option.none
 
 end Pyg.BitempDriver
